@@ -11,6 +11,11 @@ Mirrors (tme/matching_utils.py):
   first; `numRandom`)
 * `euler_to_rotationmatrix` / `euler_from_rotationmatrix` (scipy: lower case = extrinsic, upper = intrinsic)
 * `get_rotations_around_vector`    (`coneAngles`, `coneMatrices` for the default axis)
+  and `coneMatricesVec` for a general axis (`V · R_zyx(a, b, φ + a_V)`)
+* `rotation_aligning_vectors`      (`cross3`, `skew`, `rodrigues`, `alignRot`; float: `alignRotF` with the float32
+  normalisation, the `allclose` shortcut and the `0/0` of antiparallel vectors as coded)
+* the `convention` string          (`parseSeq`, `conventionDispatch`, `eulerToMatConvF`), the algebraic inverse
+  reading `eulerZYXFrom` / `eulerZYXRoundTrip`
 
 Algebra is polymorphic over the scalar (`Add/Sub/Mul/Neg/Zero/One` only) so the very same
 definitions are executed on `Float` by the driver and reasoned about over any commutative ring.
@@ -167,6 +172,17 @@ def eulerIntrinsic (l : List (Nat × α × α)) : M3 α :=
 /-- the default convention `"zyx"`: `Rx(c) · Ry(b) · Rz(a)` for angles `(a, b, c)` -/
 def eulerZYX (ca sa cb sb cc sc : α) : M3 α := (rotX cc sc).mul ((rotY cb sb).mul (rotZ ca sa))
 
+/-- algebraic reading of `euler_from_rotationmatrix(R, "zyx")`: cosine / sine of the three angles from the
+entries (`R02 = sin b`, `R00 = cos b cos a`, `R01 = -cos b sin a`, `R12 = -sin c cos b`, `R22 = cos c cos b`),
+`cb` standing for `cos b = sqrt(R00² + R01²)`; result `(cos a, sin a, cos b, sin b, cos c, sin c)` -/
+def eulerZYXFrom [Div α] (R : M3 α) (cb : α) : α × α × α × α × α × α :=
+  (R.a00 / cb, -R.a01 / cb, cb, R.a02, R.a22 / cb, -R.a12 / cb)
+
+/-- `euler_to_rotationmatrix(euler_from_rotationmatrix(R))` in that reading -/
+def eulerZYXRoundTrip [Div α] (R : M3 α) (cb : α) : M3 α :=
+  let e := eulerZYXFrom R cb
+  eulerZYX e.1 e.2.1 e.2.2.1 e.2.2.2.1 e.2.2.2.2.1 e.2.2.2.2.2
+
 /-- `euler_from_rotationmatrix`, 2×2 input: `temp_matrix = np.eye(3); temp_matrix[:2, :2] = rotation_matrix` -/
 def embed2 (m : M2 α) : M3 α := ⟨m.b00, m.b01, 0, m.b10, m.b11, 0, 0, 0, 1⟩
 
@@ -214,6 +230,33 @@ def fixRotations (dim : Nat) (ms : List (List (List α))) (negdet : List Bool) :
   | [] => none
   | _ :: t => some (identL dim :: t)
 
+/-! ## `rotation_aligning_vectors` (Rodrigues form, lines 900–907) -/
+
+/-- `np.cross` of two 3-vectors -/
+def cross3 (u v : α × α × α) : α × α × α :=
+  (u.2.1 * v.2.2 - u.2.2 * v.2.1, u.2.2 * v.1 - u.1 * v.2.2, u.1 * v.2.1 - u.2.1 * v.1)
+
+/-- `K = [[0, -k[2], k[1]], [k[2], 0, -k[0]], [-k[1], k[0], 0]]` -/
+def skew (k : α × α × α) : M3 α := ⟨0, -k.2.2, k.2.1, k.2.2, 0, -k.1, -k.2.1, k.1, 0⟩
+
+def M3.add (A B : M3 α) : M3 α :=
+  ⟨A.a00 + B.a00, A.a01 + B.a01, A.a02 + B.a02, A.a10 + B.a10, A.a11 + B.a11, A.a12 + B.a12,
+   A.a20 + B.a20, A.a21 + B.a21, A.a22 + B.a22⟩
+
+/-- scalar · matrix -/
+def M3.smul (t : α) (A : M3 α) : M3 α :=
+  ⟨t * A.a00, t * A.a01, t * A.a02, t * A.a10, t * A.a11, t * A.a12, t * A.a20, t * A.a21, t * A.a22⟩
+
+/-- `eye(3) + sin(angle) * K + (1 - cos(angle)) * np.dot(K, K)` with `c = cos(angle)`, `s = sin(angle)` -/
+def rodrigues (k : α × α × α) (c s : α) : M3 α :=
+  (M3.id.add (M3.smul s (skew k))).add (M3.smul (1 - c) ((skew k).mul (skew k)))
+
+/-- the branch taken when the vectors are not `allclose`: `k = cross(u, v) / n` with `n` the value of
+`np.linalg.norm(rotation_axis)`, `c` / `s` cosine / sine of `arccos(dot(u, v))` -/
+def alignRot [Div α] (u v : α × α × α) (n c s : α) : M3 α :=
+  let a := cross3 u v
+  rodrigues (a.1 / n, a.2.1 / n, a.2.2 / n) c s
+
 end algebra
 
 /-! ## closest-angle set lookup -/
@@ -247,6 +290,37 @@ def shipped : List (String × Nat × Int) := [
   ("c48u4749.npy", 113976, 400), ("c48u5879.npy", 141096, 374), ("c48u7111.npy", 170664, 353),
   ("c48u815.npy", 19560, 740), ("c48u83.npy", 1992, 1629), ("c48u8649.npy", 207576, 326),
   ("c600v.npy", 60, 4448), ("c600vc.npy", 360, 2778)]
+
+/-! ## the `convention` string (`euler_to_rotationmatrix`: `convention[:len(angles)]` handed to scipy's
+`Rotation.from_euler`) -/
+
+def axisOfChar (c : Char) : Option Nat :=
+  if c = 'x' ∨ c = 'X' then some 0 else if c = 'y' ∨ c = 'Y' then some 1
+  else if c = 'z' ∨ c = 'Z' then some 2 else none
+
+def consecDistinct : List Nat → Bool
+  | a :: b :: t => a != b && consecDistinct (b :: t)
+  | _ => true
+
+/-- scipy's reading of `seq`: 1 to 3 letters, all of `xyz` (extrinsic, `false`) or all of `XYZ` (intrinsic,
+`true`), consecutive axes different; anything else is a `ValueError` (`none`) -/
+def parseSeq (cs : List Char) : Option (Bool × List Nat) :=
+  if cs.length = 0 ∨ 3 < cs.length then none else
+  let lower := cs.all (fun c => c = 'x' ∨ c = 'y' ∨ c = 'z')
+  let upper := cs.all (fun c => c = 'X' ∨ c = 'Y' ∨ c = 'Z')
+  if ¬ (lower ∨ upper) then none else
+  match cs.mapM axisOfChar with
+  | none => none
+  | some axes => if consecDistinct axes then some (upper, axes) else none
+
+/-- `euler_to_rotationmatrix(angles, convention)`: the elementary rotations used and their reading.
+One angle: the code builds `(angles, 0, 0)` (a tuple inside a tuple), which scipy rejects — `none` as coded.
+More angles than letters: scipy rejects the length mismatch. -/
+def conventionDispatch (convention : List Char) (nAngles : Nat) : Option (Bool × List Nat) :=
+  if nAngles = 1 then none else
+  match parseSeq (convention.take nAngles) with
+  | some (intr, axes) => if axes.length = nAngles then some (intr, axes) else none
+  | none => none
 
 /-! ## Float execution (what the driver runs against the real code) -/
 
@@ -288,6 +362,10 @@ def toF32 (x : Float) : Float := x.toFloat32.toFloat
 def eulerToMatF (intrinsic : Bool) (l : List (Nat × Float)) : M3 Float :=
   let cs := l.map (fun (ax, a) => (ax, Float.cos (deg2rad a), Float.sin (deg2rad a)))
   ((if intrinsic then eulerIntrinsic cs else eulerExtrinsic cs)).map toF32
+
+/-- `euler_to_rotationmatrix(angles, convention)` with the string dispatch; `none` = `ValueError` -/
+def eulerToMatConvF (convention : String) (angles : List Float) : Option (M3 Float) :=
+  (conventionDispatch convention.toList angles.length).map (fun r => eulerToMatF r.1 (r.2.zip angles))
 
 /-- `euler_from_rotationmatrix(R, "zyx")` away from gimbal lock: the angles read off the entries
 `R02 = sin b`, `R00 = cos b cos a`, `R01 = -cos b sin a`, `R12 = -sin c cos b`, `R22 = cos c cos b` -/
@@ -338,5 +416,43 @@ def coneMatrices (coneAngle coneSampling axisAngle axisSampling : Float) (nSym :
   (coneAngles coneAngle coneSampling axisAngle axisSampling nSym).map (fun (a, b, c) =>
     eulerZYX (Float.cos (deg2rad a)) (Float.sin (deg2rad a)) (Float.cos (deg2rad b)) (Float.sin (deg2rad b))
       (Float.cos (deg2rad c)) (Float.sin (deg2rad c)))
+
+/-! ## `rotation_aligning_vectors`, float execution -/
+
+def norm3F (v : Float × Float × Float) : Float := Float.sqrt (v.1 * v.1 + v.2.1 * v.2.1 + v.2.2 * v.2.2)
+
+/-- `x = np.asarray(x, dtype=np.float32); x /= np.linalg.norm(x)` (values rounded to float32) -/
+def normalize32 (v : Float × Float × Float) : Float × Float × Float :=
+  let w := (toF32 v.1, toF32 v.2.1, toF32 v.2.2)
+  let n := toF32 (norm3F w)
+  (toF32 (w.1 / n), toF32 (w.2.1 / n), toF32 (w.2.2 / n))
+
+/-- one element of `np.isclose(a, b)` with the default `rtol=1e-05, atol=1e-08` (false on NaN) -/
+def isclose (a b : Float) : Bool := (a - b).abs <= 0.00000001 + 0.00001 * b.abs
+
+def allclose3 (a b : Float × Float × Float) : Bool :=
+  isclose a.1 b.1 && isclose a.2.1 b.2.1 && isclose a.2.2 b.2.2
+
+/-- `rotation_aligning_vectors(initial, target, convention=None)` for 3-vectors: identity when the
+normalised vectors are `allclose`, the Rodrigues matrix otherwise (antiparallel vectors: the axis is
+`0 / 0`, every entry NaN — as the code) -/
+def alignRotF (u0 v0 : Float × Float × Float) : M3 Float :=
+  let u := normalize32 u0
+  let v := normalize32 v0
+  if allclose3 u v then M3.id else
+  let ang := toF32 (Float.acos (toF32 (dot3 u v)))
+  alignRot u v (toF32 (norm3F (cross3 u v))) (Float.cos ang) (Float.sin ang)
+
+/-- `get_rotations_around_vector(..., vector=w)`, `convention=None`, for a cone axis `w` whose aligning
+rotation is off gimbal lock: `V · R_zyx(a, b, φ + a_V)` with `V = rotation_aligning_vectors([1,0,0], w)` and
+`a_V` its first `zyx` Euler angle (lines 712–716, 724, 732–733; the detour of the code through float32 Euler
+angles of `V` is within the comparison tolerance) -/
+def coneMatricesVec (coneAngle coneSampling axisAngle axisSampling : Float) (nSym : Nat)
+    (w : Float × Float × Float) : List (M3 Float) :=
+  let V := alignRotF (1.0, 0.0, 0.0) w
+  let aV := rad2deg (Float.atan2 (-V.a01) V.a00)
+  (coneAngles coneAngle coneSampling axisAngle axisSampling nSym).map (fun (a, b, c) =>
+    V.mul (eulerZYX (Float.cos (deg2rad a)) (Float.sin (deg2rad a)) (Float.cos (deg2rad b)) (Float.sin (deg2rad b))
+      (Float.cos (deg2rad (c + aV))) (Float.sin (deg2rad (c + aV)))))
 
 end Pm.C07
